@@ -61,6 +61,88 @@ def deps_closure(fn, expr):
     return out
 
 
+def check_straight_last_ctrl(ctx, db):
+    """R-STATE: after a straight section (horizontal / vertical / segment, single coordinate or list) the remembered control
+    point is the vertex before the new end point - the tangent the next smooth section or turn continues along. The store
+    `last_ctrl = point_array[count + k]` and the number A of vertices appended after it must satisfy k = A - 2 on every
+    path (k = -1 before one append, k = -2 after the whole list was appended), as linear forms over the list length."""
+    from .. import linear
+    n = 0
+    for name in ('horizontal', 'vertical', 'segment'):
+        for f in db.fn('gdstk::Curve::' + name, all=True):
+            ctx.touch(f)
+            key = 'Curve::%s#%s' % (name, f.params[0]['t'].replace('gdstk::', '').replace('const ', ''))
+            CNT = 'this->point_array.count'
+
+            def index_of(e):
+                """e == point_array[idx] (operator[] or items[idx]) -> idx"""
+                e = _strip_casts(e)
+                while e is not None and e.k in ('ParenExpr', 'CXXConstructExpr', 'MaterializeTemporaryExpr') and len([c for c in e.c if c is not None]) == 1:
+                    e = _strip_casts([c for c in e.c if c is not None][0])
+                if e is None:
+                    return None
+                if e.k == 'CXXOperatorCallExpr' and (e.callee or '').endswith('operator[]') and len(e.args) == 2 and norm(e.args[0].text()) == 'this->point_array':
+                    return e.args[1]
+                if e.k == 'ArraySubscriptExpr' and norm((e.child('base') or e.c[0]).text()) == 'this->point_array.items':
+                    return e.child('idx') or e.c[1]
+                return None
+
+            class Unknown(Exception):
+                pass
+
+            def appended(stmts, after):
+                """vertices appended by the statements at positions > after, as a linear form (same on both branches of an if)"""
+                tot = {}
+                for st in stmts:
+                    if st is None:
+                        continue
+                    if st.k == 'CompoundStmt':
+                        tot = linear.lin_add(tot, appended(st.c, after))
+                    elif st.k == 'IfStmt':
+                        a = appended([st.child('then')], after)
+                        b = appended([st.child('else')], after) if st.child('else') is not None else {}
+                        cl = lambda d_: {k_: v_ for k_, v_ in d_.items() if v_ != 0}
+                        if cl(a) != cl(b):
+                            raise Unknown()
+                        tot = linear.lin_add(tot, a)
+                    elif st.k in ('ForStmt', 'WhileStmt', 'DoStmt'):
+                        if any(x.pos > after and _appends(x) is not None for x in st.walk()):
+                            raise Unknown()
+                    else:
+                        for x in st.walk():
+                            if x.pos > after and _appends(x) is not None:
+                                tot = linear.lin_add(tot, _appends(x))
+                return tot
+
+            def _appends(x):
+                if x.k == 'CXXMemberCallExpr' and (x.callee or '').split('::')[-1] in ('append', 'append_unsafe') and x.child('obj') is not None and norm(x.child('obj').text()) == 'this->point_array':
+                    return {1: 1}
+                if x.k == 'CompoundAssignOperator' and x.op == '+=' and lvalue_key(x.child('lhs')) == CNT:
+                    return linear.lin_of(f, x.child('rhs'), x, opaque=(CNT,)) or {('expr', x.text()): 1}
+                if is_assign(x) and x.op == '=' and lvalue_key(x.child('lhs')) == CNT:
+                    return {('expr', x.text()): 1}
+                if x.k == 'CXXMemberCallExpr' and (x.callee or '').split('::')[-1] == 'extend' and x.child('obj') is not None and norm(x.child('obj').text()) == 'this->point_array':
+                    return {('expr', x.text()): 1}
+                return None
+            stores = [x for x in f.walk() if is_assign(x) and lvalue_key(x.child('lhs')) == 'this->last_ctrl']
+            for st in stores:
+                idx = index_of(st.child('rhs'))
+                if idx is None:
+                    continue
+                n += 1
+                li = linear.lin_of(f, idx, st, opaque=(CNT,))
+                cl = lambda d_: {k_: v_ for k_, v_ in (d_ or {}).items() if v_ != 0}
+                try:
+                    A = appended([f.body], st.pos)
+                    want = linear.lin_add({CNT: 1, 1: -2}, A)
+                    ok = li is not None and cl(li) == cl(want)
+                    why = 'last_ctrl is read from index `%s`, and %s vertices are appended after that: it is not the vertex before the new end point (expected index count + appended - 2)' % (norm(idx.text()), A.get(1, 0) if set(cl(A)) <= {1} else 'a list of')
+                except Unknown:
+                    ok, why = False, 'vertices are appended after the store on some paths only, or in a loop: the stored control point is not the vertex before the new end point'
+                ctx.check(ok, 'R-STATE', key + '/last_ctrl-is-previous-vertex@%d' % st.l, st.loc(), 'last_ctrl is the vertex before the new end point', why)
+    ctx.require('R-STATE straight-section last_ctrl stores', n, 5)
+
+
 def check_last_ctrl(ctx, db):
     n = 0
     for name in SECTION_METHODS:
@@ -759,6 +841,7 @@ def run(ctx):
     t = norm(clone.canon(fp.body, fp, ren=clone.Renamer(fp, params_by_name=True)))
     ctx.check('this->spine.commands($items, $count)' in t and 'this->fill_offsets_and_widths(NULL, NULL)' in t, 'R-SHAPE', 'FlexPath::commands/delegates', fp.loc(), 'FlexPath::commands runs the curve interpreter on its spine and then fills widths/offsets')
     ctx.attempt(check_last_ctrl, ctx, db)
+    ctx.attempt(check_straight_last_ctrl, ctx, db)
     ctx.attempt(check_clamps, ctx, db)
     ctx.attempt(check_samplers, ctx, db)
     ctx.attempt(check_dimensions, ctx, db)
